@@ -30,6 +30,7 @@ from lib.core import f2bits, bits2f
 
 DRIVER = "drv_constrained"
 HARNESS = ("constrained", ["constrained.cpp"])
+LEAN_TARGETS = ["OmplModel.Props.C16", DRIVER]
 SENT_STATE = 12345.678
 SENT_FRAC_BITS = f2bits(-7.0)
 REL = 1e-9   # slack of the Python re-computation (the formulas are mirrored operation by operation)
@@ -119,7 +120,8 @@ def header(cfg, driver=False):
     base = "n=%d delta=%s lambda=%s tol=%s maxit=%d lo=%s hi=%s" % (
         cfg["n"], f2bits(cfg["delta"]), f2bits(cfg["lam"]), f2bits(cfg["tol"]), cfg["maxit"], f2bits(cfg["lo"]), f2bits(cfg["hi"]))
     if driver:
-        return "constrained m=%d %s" % (CONS[cfg["con"]][0], base)
+        m = CONS[cfg["con"]][0]
+        return "constrained m=%d k=%d %s %s" % (m, cfg["n"] - m, base, cfg.get("aparams", ""))
     obs = "none" if cfg["obs"] is None else "%d:%s:%s" % (cfg["obs"][0], f2bits(cfg["obs"][1]), f2bits(cfg["obs"][2]))
     return "constrained space=%s con=%s %s seed=%d obs=%s" % (cfg["space"], cfg["con"], base, cfg["seed"], obs)
 
@@ -128,6 +130,7 @@ def parse_events(toks, n, m):
     """token list after '|' -> list of events (kind, fields as bit strings)."""
     out = []
     i = 0
+    kk = n - m
     while i < len(toks):
         k = toks[i]
         i += 1
@@ -148,6 +151,33 @@ def parse_events(toks, n, m):
         elif k == "P":
             out.append(("P", toks[i:i + n], toks[i + n], toks[i + n + 1:i + 2 * n + 1]))
             i += 2 * n + 1
+        elif k == "GC":
+            out.append(("GC", toks[i:i + n], toks[i + n], toks[i + n + 1], toks[i + n + 2]))
+            i += n + 3
+        elif k == "PI":
+            out.append(("PI", toks[i], toks[i + 1:i + 1 + n], toks[i + 1 + n:i + 1 + n + kk]))
+            i += 1 + n + kk
+        elif k == "PSI":
+            out.append(("PSI", toks[i], toks[i + 1:i + 1 + kk], toks[i + 1 + kk], toks[i + 2 + kk:i + 2 + kk + n]))
+            i += 2 + kk + n
+        elif k == "PHI":
+            out.append(("PHI", toks[i], toks[i + 1:i + 1 + kk], toks[i + 1 + kk:i + 1 + kk + n]))
+            i += 1 + kk + n
+        elif k == "IP":
+            out.append(("IP", toks[i], toks[i + 1:i + 1 + kk], toks[i + 1 + kk]))
+            i += 2 + kk
+        elif k == "CD":
+            out.append(("CD", toks[i:i + n], toks[i + n]))
+            i += n + 1
+        elif k == "SC":
+            out.append(("SC", toks[i], toks[i + 1:i + 1 + n]))
+            i += 1 + n
+        elif k == "BC":
+            out.append(("BC", toks[i]))
+            i += 1
+        elif k == "OC":
+            out.append(("OC", toks[i:i + n], toks[i + n]))
+            i += n + 1
         elif k == "G":
             interp, ret, has, cnt = toks[i], toks[i + 1], toks[i + 2], int(toks[i + 3])
             i += 4
@@ -159,7 +189,12 @@ def parse_events(toks, n, m):
     return out
 
 
-def ev_tokens(evs, kinds="FJV"):
+FJV = ("F", "J", "V")
+GEO_KINDS = ("S", "V", "GC", "PI", "PSI", "PHI", "IP", "CD")
+SAMPLER_KINDS = ("GC", "PI", "PSI", "IP", "SC", "BC", "OC")
+
+
+def ev_tokens(evs, kinds=FJV):
     out = []
     for e in evs:
         if e[0] not in kinds:
@@ -183,6 +218,7 @@ def fl(bits_list):
 DELTAS = [0.01, 0.05, 0.5]
 LAMBDAS = [1.1, 2.0, 10.0]
 TOLS = [1e-3, 1e-4, 1e-6, 1e-8, 1e-10]
+RADII = [1e-12, 1e-6, 1e-3, 0.05, 0.3, 1.0, 3.0, 10.0, 1e3]
 PLANNERS = ["RRT", "RRTConnect", "PRM", "KPIECE1", "BITstar", "RRTstar", "EST", "BKPIECE1"]
 
 
@@ -258,14 +294,14 @@ def main_script(cfg, r, pts, tier):
     q = 1 if tier == "quick" else 3
     if len(pts) < 2:
         # no known manifold points (projection never converges / bounds miss the manifold): samplers only
-        lines = [header(cfg)] + (["anchor " + st(pts[0])] if pts else [])
+        lines = [header(cfg), "params"] + (["anchor " + st(pts[0])] if pts else [])
         if pts or cfg["space"] == "proj":
             lines += ["sample u"] * (10 * q)
         if cfg["space"] == "proj":
             for p in singular_points(r, cfg)[:6]:
                 lines.append("sample n %s %s" % (st(p), f2bits(1e-3)))
         return lines
-    lines = [header(cfg), "anchor " + st(pts[0])]
+    lines = [header(cfg), "params", "anchor " + st(pts[0])]
 
     def pick():
         return r.choice(pts)
@@ -281,6 +317,10 @@ def main_script(cfg, r, pts, tier):
         lines.append("sample n %s %s" % (st(pick()), f2bits(r.choice([cfg["delta"], 0.3, 1.0]))))
     for _ in range(4 * q):
         lines.append("sample g %s %s" % (st(pick()), f2bits(r.choice([cfg["delta"], 0.1, 0.5]))))
+    # sampling radius / sigma from tiny to far beyond the manifold's curvature radius (all three spaces)
+    for d in RADII:
+        lines.append("sample n %s %s" % (st(pick()), f2bits(d)))
+        lines.append("sample g %s %s" % (st(pick()), f2bits(d)))
     if cfg["space"] == "proj":
         # search for sampler residual failures: draws near the singular sets of the constraint (DESIGN 2.16 "Search")
         for p in singular_points(r, cfg)[:6]:
@@ -297,6 +337,8 @@ def main_script(cfg, r, pts, tier):
     pairs.append((pick(), rand_point(r, cfg)))                  # arbitrary (off-manifold) target
     for a, b in pairs:
         lines.append("geo %d %s %s" % (r.below(2), st(a), st(b)))
+    # a start state off the manifold (outside the property's quantifier; Atlas / TangentBundle must refuse it untouched)
+    lines.append("geo %d %s %s" % (r.below(2), st([v + 0.37 for v in pick()]), st(pick())))
     for a, b in pairs[:4 * q]:
         lines.append("geo 1 %s %s" % (st(a), st(b)))
     # interpolation
@@ -356,6 +398,8 @@ def oracle_line(cfg, op, out):
         return [("crash", "no-output", "no output line for %s" % t[0])]
     if head[0] == "bad-op":
         return [("harness", "bad-op", "bad-op on a well-formed line")]
+    if head[0] in ("params", "ok"):
+        return []
     if head[0] == "exception":
         # Atlas refuses degenerate manifolds / sampling before anchoring by throwing: not a property matter
         return []
@@ -452,7 +496,7 @@ def driver_lines(cfg, script, out):
     for li, (op, o) in enumerate(zip(script[1:], out)):
         t = op.split()
         head, tail = split_line(o)
-        if not head or head[0] in ("bad-op", "exception", "ok"):
+        if not head or head[0] in ("bad-op", "exception", "ok", "params"):
             continue
         evs = parse_events(tail, n, m) if tail else []
         # every Constraint::project call, wherever it happened
@@ -465,7 +509,7 @@ def driver_lines(cfg, script, out):
                     add("project %s %s" % (" ".join(e[1]), " ".join(ev_tokens(seg))),
                         "ret=%s x= %s left=0 miss=0" % (e[2], " ".join(e[3])), (li, "project"))
                 seg = None
-            elif seg is not None and e[0] in "FJ":
+            elif seg is not None and e[0] in ("F", "J"):
                 seg.append(e)
         fjv = " ".join(ev_tokens(evs))
         if t[0] == "sat":
@@ -479,12 +523,28 @@ def driver_lines(cfg, script, out):
             k = int(head[1][2:])
             add("geo %s %s %s" % (t[1], " ".join(t[2:2 + 2 * n]), fjv),
                 "%s n=%d %s left=0 miss=0" % (head[0], k, " ".join(head[2:2 + k * n])), (li, "geo"))
+        elif t[0] == "geo" and not proj:
+            k = int(head[1][2:])
+            add("%s %s %s %s" % ("ageo" if cfg["space"] == "atlas" else "tgeo", t[1], " ".join(t[2:2 + 2 * n]), " ".join(ev_tokens(evs, GEO_KINDS))),
+                " ".join(("%s n=%d %s left=0 miss=0" % (head[0], k, " ".join(head[2:2 + k * n]))).split()), (li, "ageo" if cfg["space"] == "atlas" else "tgeo"))
+        elif t[0] == "sample" and not proj:
+            psis = [e for e in evs if e[0] == "PSI"]
+            gcs = [e for e in evs if e[0] == "GC"]
+            via = "psi" if (psis and psis[-1][3] == "1") else "fallback"
+            exp = "s= %s via=%s psi=%d left=0 miss=0" % (" ".join(head[1:1 + n]), via, len(psis))
+            if t[1] == "u":
+                add("asu " + " ".join(ev_tokens(evs, SAMPLER_KINDS)), exp, (li, "asu"))
+            elif gcs and gcs[0][3] != "-1":
+                add("asn %s %s %s" % (" ".join(t[2:2 + n]), t[2 + n], " ".join(ev_tokens(evs, SAMPLER_KINDS))), exp, (li, "asn"))
         elif t[0] == "gi":
             add(op, head[0], (li, "gi"))
         elif t[0] == "interp":
             gs = [e for e in evs if e[0] == "G"]
             if len(gs) == 1:
                 g = gs[0]
+                if cfg["space"] == "tb":
+                    add("tinterp %s %s %s" % (" ".join(t[1:1 + 2 * n]), t[1 + 2 * n], " ".join(ev_tokens(evs, GEO_KINDS))),
+                        "r= %s left=0 miss=0" % " ".join(head[1:1 + n]), (li, "tinterp"))
                 if cfg["space"] != "tb" or g[2] == "0":
                     add("interp %s %s %s %d %s" % (" ".join(t[1:1 + 2 * n]), t[1 + 2 * n], g[2], len(g[4]), " ".join(" ".join(x) for x in g[4])),
                         "r= %s" % " ".join(head[1:1 + n]), (li, "interp"))
@@ -516,8 +576,8 @@ def driver_lines(cfg, script, out):
 
 
 def canon_model(line):
-    """drop the model-only `exit=` token"""
-    return " ".join(x for x in line.split() if not x.startswith("exit="))
+    """drop the model-only `exit=` token; an untouched geodesic vector is an empty one for the caller"""
+    return " ".join(("n=0" if x == "n=none" else x) for x in line.split() if not x.startswith("exit="))
 
 
 # ====================================================================================== running one configuration
@@ -553,6 +613,9 @@ def run_config(ck, hbin, cfg, tier, script=None):
         if rc != 0 or len(out) != len(script) - 1:
             return dict(script=script, out=out, fails=[(len(out), "crash", "rc=%s" % rc, "harness exited with %s after %d of %d ops: %s"
                                                         % (rc, len(out), len(script) - 1, (err or "")[-800:]))], diffs=[], stats=stats, p1=p1pair)
+    for op, o in zip(script[1:], out):
+        if op == "params" and o.startswith("params ") and "eps=" in o:
+            cfg["aparams"] = " ".join(x for x in o.split()[1:] if not x.startswith("rhos="))
     fails = []
     for i, (op, o) in enumerate(zip(script[1:], out)):
         for site, cls, what in oracle_line(cfg, op, o):
@@ -656,7 +719,7 @@ def judge(ck, hbin, cfg, res, tier):
         script = res["script"]
         small = script
         if site != "crash" and len(script) > 3:
-            keep = [l for l in script[1:2] if l.startswith("anchor")]
+            keep = [l for l in script[1:3] if l.startswith(("anchor", "params"))]
             rest = script[1 + len(keep):]
 
             def still(lines):
@@ -678,7 +741,7 @@ def judge(ck, hbin, cfg, res, tier):
         record = {"engine": "constrained", "space": cfg["space"], "site": "corr", "class": tag, "con": cfg["con"],
                   "what": "model/implementation disagreement"}
         # the spec oracle passed on this op (or it would be among the fails): a correspondence break without a failing input
-        ck.report(record, script={"cfg": cfg, "lines": [sc[0]] + ([sc[1]] if sc[1].startswith("anchor") and li != 0 else []) + [sc[1 + li]]},
+        ck.report(record, script={"cfg": cfg, "lines": [sc[0]] + [l for l in sc[1:3] if l.startswith(("anchor", "params")) and l is not sc[1 + li]] + [sc[1 + li]]},
                   expected=exp, observed=got, found_input=False, engine="constrained",
                   obligation="correspondence constrained/%s: real code vs OmplModel.Model.Constrained on op `%s` (%d differing replay lines in this configuration)"
                              % (tag, sc[1 + li].split()[0], len(res["diffs"])))
@@ -717,8 +780,8 @@ def run(ck):
     ck.assumptions += ["the wrapped space is a RealVectorStateSpace (what the model's driver mirrors bit for bit); co-dimension <= 2 in the replay",
                        "from/to states handed to geodesic / interpolate / planners satisfy the constraint (the property's quantifier); "
                        "off-manifold targets are exercised for robustness only"]
-    ck.lean_build(["OmplModel.Props.C16", DRIVER])
-    ck.audit()
+    ck.lean_build(LEAN_TARGETS)
+    ck.audit(roots=["Drv.Constrained"])
     if ck.tier == "thorough" and ck.lean_ok:
         ck.leanchecker(["OmplModel.Props.C16"])
     if not ck.lean_ok:
